@@ -24,6 +24,31 @@ Section Final.
     (s_tid (subs st s1) = s_tid (subs st s2) <-> s_key (subs st s1) = s_key (subs st s2)).
   Proof. intros. eapply shared_iff_same_key_holds; eauto. eapply reach_of_run; eauto. Qed.
 
+  (* Trigger identity made explicit.  In the implementation the trigger id of a subscription is
+       xxhash64( SubscriptionDataSource.HashTriggerInput(rendered input) ++ headers hash )
+     (Resolver.prepareTrigger) where the rendered input is the whole upstream input: url, header, body
+     (query, variables, extensions), transport options (use_sse, sse_method_post, ws_sub_protocol),
+     forwarded-header rules and the connection-init payload (initial_payload) -- and the headers hash
+     is the hash of the forwarded client headers.  [keyof] is that function; its injectivity
+     (collision-freedom of the 64-bit hash, and HashTriggerInput feeding EVERY byte of the input) is an
+     ASSUMPTION of the statement, checked on the implementation by the ident stream of the harness. *)
+  Section Identity.
+    Variable input : Type.
+    Variable hhash : Type.
+    Variable keyof : input -> hhash -> key.
+    Hypothesis keyof_inj : forall i h i' h', keyof i h = keyof i' h' -> i = i' /\ h = h'.
+    Variable inp : sid -> input.
+    Variable hdr : sid -> hhash.
+
+    Lemma final_shared_iff_same_input : forall acts st s1 s2, runf acts = Some st -> In s1 (byid st) -> In s2 (byid st) ->
+      s_key (subs st s1) = keyof (inp s1) (hdr s1) -> s_key (subs st s2) = keyof (inp s2) (hdr s2) ->
+      (s_tid (subs st s1) = s_tid (subs st s2) <-> inp s1 = inp s2 /\ hdr s1 = hdr s2).
+    Proof.
+      intros acts st s1 s2 Hr H1 H2 K1 K2. rewrite (final_shared_iff_same_key acts st s1 s2 Hr H1 H2), K1, K2.
+      split; [apply keyof_inj|intros [-> ->]; reflexivity].
+    Qed.
+  End Identity.
+
   Lemma final_registry_empty : forall acts st, runf acts = Some st -> quiescent st -> reg st = [] /\ byid st = [].
   Proof. intros. eapply registry_empty_holds; eauto. eapply reach_of_run; eauto. Qed.
 
@@ -41,6 +66,19 @@ Section Final.
   Lemma final_teardown_has_cause : forall acts st s, runf acts = Some st -> s_removed (subs st s) = true -> cause st s.
   Proof. intros. eapply teardown_has_cause_holds; eauto. eapply reach_of_run; eauto. Qed.
 End Final.
+
+(* a key function that forgets a component of the input makes different inputs share one upstream *)
+Definition ex_collide : list action :=
+  sub_started 1 1 0 ++ [AClient 2 (CSub 2 0 2 false false)] ++ n 2 (TCl 2).
+Lemma sharing_needs_injective_key_proof :
+  exists (keyof : nat * nat -> nat -> key) (inp : sid -> nat * nat) (hdr : sid -> nat) st,
+    run fixed flt0 wres0 bad0 hb0 init ex_collide = Some st /\ In 1 (byid st) /\ In 2 (byid st) /\
+    s_key (subs st 1) = keyof (inp 1) (hdr 1) /\ s_key (subs st 2) = keyof (inp 2) (hdr 2) /\
+    inp 1 <> inp 2 /\ s_tid (subs st 1) = s_tid (subs st 2) /\ starts (chron st) = [0].
+Proof.
+  exists (fun i _ => fst i), (fun s => (0, s)), (fun _ => 0). eexists. split; [vm_compute; reflexivity|].
+  repeat split; try (vm_compute; tauto); try (vm_compute; reflexivity). intro H; discriminate.
+Qed.
 
 (* ---- historical (pre-repair) transitions ---- *)
 Definition quiescent_b (st : state) : bool :=
